@@ -249,7 +249,10 @@ func (p *parser) lowerSuperPropertyOrPrivateInAssign(expr js_ast.Expr) (js_ast.E
 }
 
 func (p *parser) shouldLowerSuperPropertyAccess(expr js_ast.Expr) bool {
-	if p.fnOrArrowDataVisit.shouldLowerSuperPropertyAccess {
+	// Note: "innerClassNameRef" is nil for a "super" that is not inside a class
+	// or an object literal method. That is a syntax error which has already been
+	// reported by the parser, so there is nothing to lower.
+	if p.fnOrArrowDataVisit.shouldLowerSuperPropertyAccess && p.fnOnlyDataVisit.innerClassNameRef != nil {
 		_, isSuper := expr.Data.(*js_ast.ESuper)
 		return isSuper
 	}
